@@ -3,6 +3,7 @@
 From Coq Require Import ZArith Reals List Bool.
 From OV Require Import Base.Num Base.NumR Base.NumZ Base.Py Model.OptimState Model.OptimRef Gen.Optim Gen.Engine
   Proofs.OptimSM Proofs.OptimEq Proofs.NoiseP Model.ClipNum Proofs.ClipR Proofs.ClipEval Proofs.EngineP.
+From OV Require Import Gen.Ghost Proofs.GhostBackward.
 Import ListNotations.
 
 (* stage 1: clip_and_accumulate of DPOptimizer / DPPerLayerOptimizer / AdaClipDPOptimizer adds, for every sample of the
@@ -57,6 +58,20 @@ Print Assumptions C03_clip_factor.
 Print Assumptions C03_unclipped_pass_through.
 Print Assumptions C03_noise_stage.
 Print Assumptions C03_scale_stage.
+(* ghost clipping: the clipped sum reaches p.grad as the gradient of the SECOND loss; on the statement lists generated from
+   DPTensorFastGradientClipping.backward and its adaptive variant that loss is sum_i c_i * loss_i whether the criterion returns its
+   per-sample losses as a vector [B] or as a column [B, 1]; without the re-layout of the coefficients a column is multiplied by
+   (sum of all coefficients), i.e. nothing is clipped per sample *)
+Theorem C03_ghost_second_loss_is_weighted_sum (ll : layout) (c l : list R) :
+  snd (fold_left (shape_step ll c l) ghost_backward_ops (LVec, None)) = Some (rdot c l) /\
+  snd (fold_left (shape_step ll c l) ghost_adaptive_backward_ops (LVec, None)) = Some (rdot c l).
+Proof. exact (second_loss_is_weighted_sum ll c l). Qed.
+Theorem C03_ghost_second_loss_unshaped_refuted : exists c l,
+  snd (fold_left (shape_step LCol c l) (filter (fun o => match o with GShapeCoef => false | _ => true end) ghost_backward_ops) (LVec, None)) <> Some (rdot c l).
+Proof. exact second_loss_unshaped_refuted. Qed.
+
 Print Assumptions C03_release_closed_form.
 Print Assumptions C03_zero_noise_big_C_is_vanilla.
 Print Assumptions C03_optimizer_class_table.
+Print Assumptions C03_ghost_second_loss_is_weighted_sum.
+Print Assumptions C03_ghost_second_loss_unshaped_refuted.
